@@ -146,6 +146,8 @@ fn rules() -> Vec<Rule> {
         rule!("control.loop-with-comot", "jasi (true) start\ncomot\nend", none, Never),
         rule!("control.return-type-through-shadowed-name", "make zz_q get \"s\"\nstart\ndo zz_id(zz_q) start\nreturn zz_q\nend\nshout(zz_id(5) times 2)\nend", none, Never),
         rule!("control.return-type-through-shadowed-local", "make zz_w get \"s\"\nstart\ndo zz_lw() start\nmake zz_w get 1\nreturn zz_w\nend\nshout(zz_lw() times 2)\nend", none, Never),
+        rule!("control.return-type-through-name-shadowed-by-the-defining-block", "make zz_bv get \"text\"\nstart\nmake zz_bv get 5\ndo zz_gv() start\nreturn zz_bv\nend\nshout(zz_gv() times 2)\nend", none, Never),
+        rule!("control.return-type-through-name-shadowed-by-the-defining-function", "make zz_fv get 5\ndo zz_of() start\nmake zz_fv get \"text\"\ndo zz_if() start\nreturn zz_fv\nend\nreturn zz_if().len()\nend\nshout(zz_of())", none, Never),
         rule!("control.add-of-parameters", "do zz_ad(x, y) start\nreturn (x add y) times 2\nend\nshout(zz_ad(1, 2))", none, Never),
         rule!("control.unary-on-parameter", "do zz_ng(x, k) start\nif to say (true and not k) start\nreturn 2 times minus x\nend\nreturn 0\nend\nshout(zz_ng(1, false))", none, Never),
         rule!("control.method-on-dynamic-sum", "do zz_ln(p) start\nreturn (p add 1).len()\nend\nshout(zz_ln(\"s\"))", none, Never),
